@@ -2,7 +2,7 @@
    ExtrOcamlBasic only: bool, option, list, prod, unit, sumbool are mapped to
    OCaml's own; nat, positive, N stay Coq inductives. No Extract Constant. *)
 From Coq Require Import Extraction ExtrOcamlBasic.
-From PegV Require Import Utf8 State Terminals TerminalsSpec Syntax Fields Literals Model Spec Hooks Pretty BuildScript Extracted.
+From PegV Require Import Utf8 State Terminals TerminalsSpec Syntax Fields Literals Model Spec Hooks Pretty BuildScript Compile Extracted.
 Extraction Language OCaml.
 
 Definition m_parse_std :=
@@ -12,7 +12,13 @@ Definition bs_run := BuildScript.run.
 Definition get_fields_std := get_fields Extracted.fcfg_run.
 Definition pretty_exec := Pretty.from_parse_error Extracted.pretty_run.
 
+Definition compile_std :=
+  Compile.compile Extracted.fcfg_run (insens_guard Extracted.rcfg_run) Extracted.x_leftrec_needs_clone_run Extracted.x_pos_variants_checked_run.
+Definition idents_ok_std := Compile.idents_ok.
+Definition derives_ok_std := Compile.derives_ok.
+
 Extraction "model.ml"
+  compile_std idents_ok_std derives_ok_std Extracted.x_raw_kw_guard_run
   pretty_exec Pretty.pretty_spec
   Utf8.decode_str Utf8.encode_str
   m_parse_std s_parse_std Spec.furthest_latest get_fields_std Hooks.u_init Model.gf_fuel
